@@ -3,6 +3,8 @@ import OvniModel.Emu.Meta
 import OvniModel.Lemmas.Stream
 import OvniModel.Lemmas.Meta
 import OvniModel.Props.C14
+import OvniModel.Emu.MetaJson
+import OvniModel.Props.Json
 
 /-!
 # C12 — structurally invalid or incomplete traces are rejected
@@ -22,6 +24,12 @@ the jumbo size field before checking that it lies inside the stream): the
 negation is proved with a witness, the `_partial` theorem carries the exact
 hypothesis that excludes the witness class, and `Fixed.truncation_rejected` is
 the full statement for the repaired cursor (`Stream.Fixed`).
+
+The metadata records the gates decide over are computed from the bytes of each
+`stream.json` by the parson model (`Emu/MetaJson.lean` over `OvniModel/Json.lean`,
+theorems in `Props/Json.lean`): `truncated_json_rejected` — a `stream.json` cut
+anywhere is refused at `load_json`; `written_json_read_back` — the complete file
+gives the getters exactly what libovni stored.
 -/
 namespace Ovni.Props.C12
 open Ovni.Emu.Stream Ovni.Emu.Meta
@@ -327,5 +335,30 @@ theorem Fixed.emuEv_isJumbo (prev : EmuEv) (g : Garbage) (buf : List Nat) (off :
   unfold Ovni.Emu.Stream.Fixed.emuEv
   simp only
   split <;> simp
+
+/-! ### metadata from the bytes of `stream.json` (parson model) -/
+
+/-- A `stream.json` whose text is a strict prefix of what libovni serialized (a
+    kill or a full disk during `json_serialize_to_file_pretty`; the empty file
+    included) does not pass `load_json`: the stream is rejected with class `json`,
+    and so is a trace made of it. -/
+theorem truncated_json_rejected (cast : Bool) (j : Ovni.Json.Json) (hw : Ovni.Json.Writable j)
+    (hd : Ovni.Json.delimited j = true) (p : List Nat) (hp : p <+: Ovni.Json.serializePretty j)
+    (hne : p ≠ Ovni.Json.serializePretty j) :
+    ∃ m, metaOfText cast p = some m ∧ checkStream m = .error .json ∧ checkTrace [m] = .error .json := by
+  refine ⟨metaOfJson cast .null, ?_, rfl, rfl⟩
+  unfold metaOfText
+  rw [Ovni.Props.Json.truncation_rejected j hw hd p hp hne]
+
+/-- The complete file gives the emulator's getters the value libovni held. -/
+theorem written_json_read_back (cast : Bool) (j : Ovni.Json.Json) (hw : Ovni.Json.Writable j) :
+    metaOfText cast (Ovni.Json.serializePretty j) = some (metaOfJson cast j) := by
+  unfold metaOfText
+  rw [Ovni.Props.Json.roundtrip j hw]
+
+set_option maxRecDepth 100000 in
+/-- The real `stream.json` of `Props/Json.lean` passes the per-stream gate; cut before its last byte it does not. -/
+example : (metaOfText false Ovni.Props.Json.realText).map checkStream = some (.ok true)
+    ∧ (metaOfText false (Ovni.Props.Json.realText.take 937)).map checkStream = some (.error .json) := by decide
 
 end Ovni.Props.C12
